@@ -3,7 +3,7 @@ use crate::{
     engine_c::{CBase, CCfg, SApi},
     engine_s::{Api, Base, Kind, RunCfg, Strat},
     explore::{Focus, JobCfg, Space, Stats},
-    graphs::{dags, decl_count, decl_decode, family_spec, topo_dag_specs, Family, Spec},
+    graphs::{dags, decl_count, decl_decode, family_spec, max_antichain, topo_dag_specs, Family, Spec},
     oracle::{CFacts, Facts},
 };
 
@@ -255,10 +255,11 @@ pub fn mid_spaces(tier: &str, futures: bool, streams: bool, limit: Option<usize>
     for (n, dev, full_menu) in plans {
         let cfgs = move |s: &Spec| {
             let mut c = vec![];
+            let anti = max_antichain(s.n, &s.user_edges());
             if futures {
                 let fe = Api { kind: Kind::ForEach, mutable: false, with: true };
                 let tm = Api { kind: Kind::TryForEach, mutable: true, with: false };
-                let mut menu: Vec<(Api, Base, bool)> = vec![(fe, Base::Eager, false), (fe, Base::Batch, false), (fe, Base::ReverseBatch, true), (tm, Base::Batch, false)];
+                let mut menu: Vec<(Api, Base, bool)> = vec![(fe, Base::Eager, false), (fe, Base::Batch, false), (fe, Base::ReverseBatch, true), (tm, Base::Batch, false), (fe, Base::Avoid, false)];
                 if full_menu {
                     menu.extend([(fe, Base::Batch, true), (fe, Base::AllImmediate, false), (tm, Base::ReverseBatch, false), (tm, Base::Eager, false)]);
                 }
@@ -271,11 +272,14 @@ pub fn mid_spaces(tier: &str, futures: bool, streams: bool, limit: Option<usize>
                     r.rev = rev;
                     r.limit = limit;
                     r.imm_choice = false;
+                    if base == Base::Avoid {
+                        r.avoid = anti.clone();
+                    }
                     c.push(JobCfg::S(r));
                 }
             }
             if streams {
-                let mut menu = vec![(CBase::Eager, false), (CBase::HoldThenDropAll, false), (CBase::DropFirst, true)];
+                let mut menu = vec![(CBase::Eager, false), (CBase::HoldThenDropAll, false), (CBase::DropFirst, true), (CBase::Avoid, false)];
                 if full_menu {
                     menu.extend([(CBase::HoldThenDropAll, true), (CBase::DropFirst, false)]);
                 }
@@ -283,6 +287,9 @@ pub fn mid_spaces(tier: &str, futures: bool, streams: bool, limit: Option<usize>
                     let mut cc = CCfg::plain(SApi::StreamWith);
                     cc.base = base;
                     cc.rev = rev;
+                    if base == CBase::Avoid {
+                        cc.avoid = anti.clone();
+                    }
                     c.push(JobCfg::C(cc));
                 }
             }
@@ -290,6 +297,147 @@ pub fn mid_spaces(tier: &str, futures: bool, streams: bool, limit: Option<usize>
         };
         v.push(space(&format!("mid-size: all {} topologically labelled DAGs on {n} nodes (every isomorphism class), <= {dev} deviation(s) from the base schedules", 1u64 << (n * (n - 1) / 2)), topo_dag_specs(n), Some(dev), cfgs));
     }
+    v
+}
+
+/// Irregular graphs explored with the antichain-targeted base schedules: two-depth fans, combs,
+/// trees, fan-in/out mixes and the arithmetic family; `A` = a maximum antichain of the graph.
+pub fn irregular_specs(tier: &str) -> Vec<Spec> {
+    let mut v = vec![];
+    let ks: &[usize] = if tier == "thorough" { &[2, 3, 4, 5, 6, 8, 9, 12, 16, 17, 20] } else { &[2, 3, 4, 5, 8, 9, 17] };
+    for &k in ks {
+        for f in [Family::FanPair, Family::DeepFanPair, Family::Comb, Family::FanInOut, Family::BinTree] {
+            let kk = if f == Family::BinTree { 2 * k + 3 } else { k };
+            let s = family_spec(f, kk);
+            // same shape with the labels reversed (insertion order opposite to dependency order)
+            let n = s.n;
+            let mut r = s.clone();
+            for e in r.edges.iter_mut() {
+                e.0 = n - 1 - e.0;
+                e.1 = n - 1 - e.1;
+            }
+            v.push(s);
+            v.push(r);
+        }
+    }
+    let ns: &[usize] = if tier == "thorough" { &[7, 8, 9, 10, 11, 12, 14, 16] } else { &[7, 8, 10, 12] };
+    v.extend(crate::props_build::arithmetic_specs(ns, false).into_iter().map(|(_, s)| s));
+    v
+}
+
+pub struct AntiOpts {
+    pub futures: bool,
+    pub streams: bool,
+    pub limits: Vec<Option<usize>>,
+    /// also the limit |A| - 1 (one less than what the graph can keep in flight)
+    pub limit_below_width: bool,
+    /// try APIs with every member of A failing
+    pub fail_antichain: bool,
+}
+
+pub fn antichain_spaces(tier: &str, o: AntiOpts) -> Vec<Space> {
+    let dev = if tier == "thorough" { 2 } else { 1 };
+    let specs = irregular_specs(tier);
+    let count = specs.len();
+    let cfgs = move |s: &Spec| {
+        let a = max_antichain(s.n, &s.user_edges());
+        let w = a.iter().filter(|x| **x).count();
+        let mut c = vec![];
+        if o.futures {
+            let mut lims = o.limits.clone();
+            if o.limit_below_width && w >= 2 && !lims.contains(&Some(w - 1)) {
+                lims.push(Some(w - 1));
+            }
+            for limit in lims {
+                for (api, rev) in [(Api { kind: Kind::ForEach, mutable: false, with: true }, false), (Api { kind: Kind::ForEach, mutable: true, with: true }, true), (Api { kind: Kind::TryForEach, mutable: true, with: false }, false)] {
+                    let mut r = RunCfg::plain(api, s.n);
+                    r.base = Base::Avoid;
+                    r.avoid = a.clone();
+                    r.rev = rev;
+                    r.limit = limit;
+                    r.imm_choice = false;
+                    c.push(JobCfg::S(r));
+                }
+            }
+        }
+        if o.fail_antichain {
+            for api in [Api { kind: Kind::TryForEach, mutable: false, with: true }, Api { kind: Kind::Control, mutable: true, with: false }] {
+                for base in [Base::Avoid, Base::Batch] {
+                    let mut r = RunCfg::plain(api, s.n);
+                    r.base = base;
+                    r.avoid = a.clone();
+                    r.fail = a.clone();
+                    r.imm_choice = false;
+                    c.push(JobCfg::S(r));
+                }
+            }
+        }
+        if o.streams {
+            for base in [CBase::Avoid, CBase::AvoidRev] {
+                for rev in [false, true] {
+                    let mut cc = CCfg::plain(SApi::StreamWith);
+                    cc.base = base;
+                    cc.avoid = a.clone();
+                    cc.rev = rev;
+                    c.push(JobCfg::C(cc));
+                }
+            }
+        }
+        c
+    };
+    vec![space(
+        &format!("{count} irregular graphs (two-depth fans, combs, trees, fan-in/out mixes, arithmetic DAGs on 7..16 nodes), base schedule that keeps a maximum antichain in flight / held, <= {dev} deviation(s)"),
+        specs,
+        Some(dev),
+        cfgs,
+    )]
+}
+
+/// Large irregular graphs (arithmetic family on 70 and 100 nodes: many rank-skipping edges, more
+/// than 64 descendants) and the declared wide families, under base schedules only.
+pub fn large_irregular_spaces(tier: &str, futures: bool, streams: bool, declared: bool) -> Vec<Space> {
+    let mut v = vec![];
+    let ns: &[usize] = if tier == "thorough" { &[40, 70, 100, 130] } else { &[70, 100] };
+    let mut specs: Vec<Spec> = crate::props_build::arithmetic_specs(ns, false).into_iter().map(|(_, s)| s).filter(|s| s.edges.len() <= 2600).collect();
+    if declared {
+        specs.extend(crate::props_build::sparse_conflict_specs().into_iter().map(|(_, s)| s));
+        specs.extend(crate::props_build::many_type_specs().into_iter().map(|(_, s)| s));
+    }
+    let count = specs.len();
+    v.push(space(
+        &format!("{count} large graphs: arithmetic irregular DAGs on {ns:?} nodes{}; 5 base schedules, no deviation", if declared { ", two writers 1..300 unrelated functions apart, 31..130 data types" } else { "" }),
+        specs,
+        Some(0),
+        move |s: &Spec| {
+            let mut c = vec![];
+            let a = max_antichain(s.n, &s.user_edges());
+            if futures {
+                for base in [Base::Eager, Base::EagerHigh, Base::Avoid, Base::Batch] {
+                    for rev in [false, true] {
+                        let mut r = RunCfg::plain(Api { kind: Kind::ForEach, mutable: false, with: true }, s.n);
+                        r.base = base;
+                        r.rev = rev;
+                        r.imm_choice = false;
+                        if base == Base::Avoid {
+                            r.avoid = a.clone();
+                        }
+                        c.push(JobCfg::S(r));
+                    }
+                }
+            }
+            if streams {
+                for base in [CBase::Eager, CBase::Avoid] {
+                    let mut cc = CCfg::plain(SApi::StreamWith);
+                    cc.base = base;
+                    if base == CBase::Avoid {
+                        cc.avoid = a.clone();
+                    }
+                    c.push(JobCfg::C(cc));
+                }
+            }
+            c
+        },
+    ));
     v
 }
 
@@ -402,6 +550,7 @@ pub fn c01(tier: &str) -> (Vec<Space>, Focus) {
         v.push(space("all DAGs x declarations, n=4 T=1; main configurations", decl_specs(4, 1), None, main_cfgs));
         v.push(space("n=3 T=2 with interrupt at every point / every failing subset", decl_specs(3, 2), None, stress));
     }
+    v.extend(large_irregular_spaces(tier, true, true, true));
     v.push(space("StreamOpts builder methods called in every order, declarations n=3 T=1", decl_specs(3, 1), None, |s| {
         cfgs_opts_orders(s.n, &[Api { kind: Kind::ForEach, mutable: false, with: true }, Api { kind: Kind::TryForEach, mutable: true, with: true }], &[None], true)
     }));
@@ -435,6 +584,9 @@ pub fn c02(tier: &str) -> (Vec<Space>, Focus) {
     let mut v = general_spaces(&gen_opts(tier));
     // graphs with declarations: data edges must not disturb the user's order
     v.push(space("n=3 T=1 declarations, 6 concurrent _with APIs", decl_specs(3, 1), None, |s| cfgs_plain(s.n, &conc_with(), &[None], &REVS)));
+    v.extend(mid_spaces(tier, true, true, None));
+    v.extend(antichain_spaces(tier, AntiOpts { futures: true, streams: true, limits: vec![None, Some(2)], limit_below_width: false, fail_antichain: false }));
+    v.extend(large_irregular_spaces(tier, true, true, false));
     let focus = Focus {
         props: vec![2],
         nontrivial_s: |_, f| f.starts >= 2,
@@ -513,6 +665,8 @@ pub fn c03(tier: &str) -> (Vec<Space>, Focus) {
     let mut v = general_spaces(&gen_opts(tier));
     v.extend(wide_spaces(tier, true, false));
     v.extend(mid_spaces(tier, true, true, None));
+    v.extend(antichain_spaces(tier, AntiOpts { futures: true, streams: true, limits: vec![None, Some(1), Some(2)], limit_below_width: false, fail_antichain: false }));
+    v.extend(large_irregular_spaces(tier, true, true, false));
     let focus = Focus {
         props: vec![3],
         nontrivial_s: |_, f| f.returned && f.starts >= 2,
@@ -566,6 +720,8 @@ pub fn c04(tier: &str) -> (Vec<Space>, Focus) {
     }));
     v.extend(wide_spaces(tier, false, true));
     v.extend(mid_spaces(tier, true, false, None));
+    v.extend(antichain_spaces(tier, AntiOpts { futures: true, streams: false, limits: vec![None, Some(1), Some(2)], limit_below_width: true, fail_antichain: true }));
+    v.extend(large_irregular_spaces(tier, true, false, false));
     let focus = Focus {
         props: vec![4],
         nontrivial_s: |_, f| f.returned && f.idle_points >= 1,
@@ -642,6 +798,7 @@ pub fn c05(tier: &str) -> (Vec<Space>, Focus) {
     v.push(space(&format!("wide families k in {ks1:?}, <=1 deviation from 3 consumer base behaviours"), mk(&ks1), Some(1), wc));
     v.push(space(&format!("wide families k in {ks0:?}, consumer base behaviours only"), mk(&ks0), Some(0), wc));
     v.extend(mid_spaces(tier, false, true, None));
+    v.extend(antichain_spaces(tier, AntiOpts { futures: false, streams: true, limits: vec![], limit_below_width: false, fail_antichain: false }));
     v.push(space("StreamOpts builder methods called in every order, shapes 1<=n<=3", shapes_upto(1, 3, false), None, |s| {
         cfgs_opts_orders(s.n, &[], &[None], true)
     }));
@@ -690,6 +847,8 @@ pub fn c06(tier: &str) -> (Vec<Space>, Focus) {
     }
     v.extend(wide_spaces(tier, true, false));
     v.extend(mid_spaces(tier, true, true, None));
+    v.extend(antichain_spaces(tier, AntiOpts { futures: true, streams: true, limits: vec![None], limit_below_width: false, fail_antichain: false }));
+    v.extend(large_irregular_spaces(tier, true, true, true));
     v.push(space("StreamOpts builder methods called in every order, shapes 1<=n<=3", shapes_upto(1, 3, false), None, |s| {
         cfgs_opts_orders(s.n, &conc_with(), &[None], true)
     }));
@@ -754,6 +913,7 @@ pub fn c07(tier: &str) -> (Vec<Space>, Focus) {
         }
         c
     }));
+    v.extend(antichain_spaces(tier, AntiOpts { futures: false, streams: false, limits: vec![], limit_below_width: false, fail_antichain: true }));
     v.push(space("StreamOpts builder methods called in every order with one failing function, shapes 1<=n<=3", shapes_upto(1, 3, false), None, |s| {
         let mut out = vec![];
         for fi in 0..s.n {
@@ -863,6 +1023,7 @@ pub fn c10(tier: &str) -> (Vec<Space>, Focus) {
         cfgs_opts_orders(s.n, &Api::all_with(), &[Some(1), Some(2)], false)
     }));
     v.extend(mid_spaces(tier, true, false, Some(2)));
+    v.extend(antichain_spaces(tier, AntiOpts { futures: true, streams: false, limits: vec![Some(1), Some(2), Some(3), Some(5)], limit_below_width: true, fail_antichain: false }));
     let focus = Focus {
         props: vec![10],
         nontrivial_s: |c, f| match c.limit {
